@@ -25,8 +25,11 @@ CLAIMED = {
         text="Operators.tla states the operator semantics (exact integer arithmetic on limbs in Int64.tla, IEEE results as "
              "environment primitives, promotion, comparison, equality, type errors); TLC enumerates 16 operators x pool^2 "
              "of boundary values, checks type-table / symmetry / overflow laws on the specification and emits each case; "
-             "the real result must be bit-identical or an error of the same class.",
-        note=TRUST, tech="TLC enumeration of operator x operand pairs against an executable TLA+ semantics", ref="5 C03"),
+             "the real result must be bit-identical or an error of the same class. Code -> spec: recorded single operations on "
+             "full-range operands and recorded programs of NESTED float / mixed arithmetic (floatprogs; operand table from a shadow "
+             "walk, DESIGN.md 11.9) are validated event by event against Trace_Api.tla.",
+        note=TRUST, tech="TLC enumeration of operator x operand pairs against an executable TLA+ semantics + TLC trace validation "
+                         "of recorded (nested) arithmetic", ref="5 C03"),
     "C04": dict(
         text="MC_Ctx.tla is the abstract map model of HashMapContext (two slots, clone, type-safety rule, clears, separate "
              "function namespace, builtin switch); TLC explores every reachable abstract state x every operation and checks "
